@@ -342,7 +342,34 @@ def fx8():
     return Fixture(top, [((12, 5), True), ((12, 5), False), ((8, 4), True)], ops, describe, widgets)
 
 
-FIXTURES = [("frame-icons", fx7), ("shared-children", fx8), ("frame-listbox-tall", lambda: fx1("tall-last")), ("frame-listbox", fx1), ("filler-pile", fx2), ("overlay", fx3), ("scrollbar", fx4), ("padding", fx5), ("twice-uncached", fx6)]
+def fx9():
+    """children that take no room at first (a zero-width packed column, an empty Pile as a Pile item) and a clipped Edit whose view follows the cursor"""
+    zt = urwid.Text("")
+    cols = urwid.Columns([("pack", zt), urwid.Text("x")])
+    inner = urwid.Pile([])
+    e = urwid.Edit("", "0123456789abcdef", wrap="clip")
+    e.set_edit_pos(16)
+    other = urwid.Edit("", "o")
+    top = urwid.Pile([cols, inner, e, other])
+    S = (6,)
+    ops = {
+        "zt.set_text": lambda: zt.set_text("abc" if zt.text == "" else ""),
+        "inner.append": lambda: inner.contents.append((urwid.Text("new"), inner.options())) if len(inner.contents) < 2 else None,
+        "inner.clear": lambda: inner.contents.__setitem__(slice(None), []),
+        "top.focus": lambda: setattr(top, "focus_position", 2 if top.focus_position != 2 else 3),
+        "key left": lambda: top.keypress(S, "left"),
+        "key home": lambda: top.keypress(S, "home"),
+        "key end": lambda: top.keypress(S, "end"),
+    }
+    widgets = [top, cols, inner, e, other, zt]
+
+    def describe():
+        return (zt.text, len(inner.contents), e.edit_pos, top.focus_position, e._shift_view_to_cursor)
+
+    return Fixture(top, [((6,), True), ((6,), False), ((9,), True)], ops, describe, widgets)
+
+
+FIXTURES = [("frame-icons", fx7), ("hidden-children", fx9), ("shared-children", fx8), ("frame-listbox-tall", lambda: fx1("tall-last")), ("frame-listbox", fx1), ("filler-pile", fx2), ("overlay", fx3), ("scrollbar", fx4), ("padding", fx5), ("twice-uncached", fx6)]
 
 
 def snapshot(c):
